@@ -41,6 +41,28 @@ def marginal_ob(cls, R_is_one):
               f"{P}::{cls}.get_marginal", group="marginal")
 
 
+def all_coordinates_ob(cls):
+    """all coordinates in arbitrary order (a permutation): the result must be the same density with permuted coordinates."""
+    def run():
+        from ..interp import IdxArr
+        from .c02 import coherent_diffs
+        I = build.new_interp()
+        R, Dd = sym("R"), sym("D")
+        diag = cls == "GaussianDiagPDF"
+        p = build.pdf(I, R, Dd, "p", cls=cls, args="Sigma" if diag else "full", diag=diag)
+        dims = IdxArr("perm", Dd, kind="perm")
+        q = I.call_method(p, "get_marginal", [dims])
+        S, mu = p.f["Sigma"], p.f["mu"]
+        Sref = nf.gather_axis(nf.gather_axis(S, 1, "perm", Dd, perm=True), 2, "perm", Dd, perm=True)
+        mref = nf.gather_axis(mu, 1, "perm", Dd, perm=True)
+        d = [("Sigma",) + tuple(x) for x in nf.diff(q.f["Sigma"], Sref, what="permuted Sigma")[:4]]
+        d += [("mu",) + tuple(x) for x in nf.diff(q.f["mu"], mref, what="permuted mu")[:4]]
+        d += coherent_diffs(q, "get_marginal(all coordinates): ")
+        return d, dict(funcs=funcs_of(I))
+    return Ob(f"marginal/{cls}/all-coordinates", run, "get_marginal(permutation of all coordinates) == the density with permuted coordinates; its precision / log-det belong to the permuted covariance",
+              f"{P}::{cls}.get_marginal", group="marginal")
+
+
 def linsum_ob(with_b, R_is_one):
     def run():
         I = build.new_interp()
@@ -71,12 +93,13 @@ def obligations(tier):
     for cls in ("GaussianPDF", "GaussianDiagPDF"):
         for r1 in (False, True):
             obs.append(marginal_ob(cls, r1))
+        obs.append(all_coordinates_ob(cls))
     for wb in (False, True):
         for r1 in (False, True):
             obs.append(linsum_ob(wb, r1))
     return obs
 
 
-FLOORS = {"group:marginal": 4, "group:linsum": 4}
+FLOORS = {"group:marginal": 6, "group:linsum": 4}
 LEVEL = "proof"
 EXPLANATION = "get_marginal (full, diagonal) and get_density_of_linear_sum interpreted on generic tensors; compared with (P mu, P Sigma P') / (W mu + b, W Sigma W') and with the Normal log-density of the result."
